@@ -128,3 +128,32 @@ def oracle_mesh_independence(R, tier, seed):
                 if bad: _fail(O, "C18:AeroPoint:" + sorted(bad)[0], desc, errors=bad)
                 else: O["ok"] += 1
                 R.mark("c18m", sym, k_lam, nx, ny)
+
+
+def oracle_option_combinations(R, tier, seed):
+    """each drag estimate follows its OWN switch: the four combinations of with_viscous / with_wave through AeroPoint, above the
+    critical Mach number: CDv is zero exactly when viscous drag is off, CDw is zero exactly when wave drag is off and otherwise
+    the Korn estimate at the reported CL, and CD is the sum of its parts plus CD0"""
+    from openaerostruct.geometry.utils import generate_mesh
+    O = R.oracle("AeroPoint.drag-option-combinations")
+    rng = gen.stable_rng(seed, "c18opt")
+    for sym in (True, False):
+        mesh = generate_mesh({"num_y": 7, "num_x": 2, "wing_type": "rect", "symmetry": sym, "span": float(rng.uniform(8, 12)), "root_chord": float(rng.uniform(1, 2))})
+        alpha = float(rng.uniform(2, 4)); cd0 = float(rng.choice([0.0, 0.011]))
+        for wv in (True, False):
+            for ww in (True, False):
+                s = aero.aero_surface(mesh, symmetry=sym, with_viscous=wv, with_wave=ww, t_over_c_cp=np.array([0.12]), CD0=cd0)
+                p = aero.run(aero.build_aero([s], alpha=alpha, Mach=0.82, geom=True))
+                g = lambda k: float(np.ravel(aero.g(p, "aero.wing_perf." + k))[0])
+                cl, cdi, cdv, cdw, cd = g("CL"), g("CDi"), g("CDv"), g("CDw"), g("CD")
+                mcrit = 0.95 - 0.12 - cl / 10 - (0.1 / 80.0) ** (1.0 / 3.0)
+                korn = 20 * max(0.82 - mcrit, 0.0) ** 4
+                bad = {}
+                if (cdv != 0.0) != wv: bad["CDv-does-not-follow-with_viscous"] = cdv
+                if not ww and cdw != 0.0: bad["CDw-nonzero-although-with_wave-is-off"] = cdw
+                if ww and korn > 1e-9 and not (abs(cdw / korn - 1) < 1e-8 or (sym and abs(cdw / korn - 2) < 1e-8)): bad["CDw-does-not-follow-with_wave"] = [cdw, korn]
+                if abs(cd - (cdi + cdv + cdw + cd0)) > 1e-12: bad["CD-is-not-the-sum-of-its-parts"] = [cd, cdi + cdv + cdw + cd0]
+                O["cases"] += 1
+                if bad: _fail(O, "C18:AeroPoint:" + sorted(bad)[0], {"sym": sym, "with_viscous": wv, "with_wave": ww, "alpha": alpha, "CD0": cd0, "seed": seed}, errors=bad)
+                else: O["ok"] += 1
+                R.mark("c18opt", sym, wv, ww)
